@@ -292,6 +292,8 @@ class Ocp(Stage):
         # ... possibly to a method object that was replaced since: a stale transcribed copy is never reused, drop it
         if self._is_original and not self._is_transcribed:
             self._var_augmented = None
+            for s in self.iter_stages():
+                s._var_augmented = None
         import pickle
         with rockit_pickle_context():
             pickle.dump(self,open(name,"wb"))
